@@ -79,6 +79,19 @@ struct C18Case {
     }
 };
 
+// identity of the caller-owned input arrays of an op (cells + polygon loops
+// only): ops of DIFFERENT functions can read the same shared buffers
+uint64_t dataHash(const Op &op) {
+    Chain c;
+    for (auto v : op.cells) c.add(v);
+    c.add(0x33);
+    for (auto &l : op.loops) {
+        c.add(l.size());
+        c.addBytes(l.data(), l.size() * sizeof(LatLng));
+    }
+    return c.h ? c.h : 1;
+}
+
 // caller-owned input buffers shared by several operations
 struct SharedBuf {
     std::vector<H3Index> cells;
@@ -88,7 +101,7 @@ struct SharedBuf {
     SharedInput in;
     uint64_t hash = 0;
     void build(const Op &op) {
-        hash = op.hash();
+        hash = dataHash(op);
         cells = op.cells;
         cells.push_back(0);  // never empty, so data() is valid
         loops = op.loops;
@@ -107,6 +120,14 @@ struct SharedBuf {
             in.poly = &poly;
         }
         if (!op.cells.empty()) in.cells = cells.data();
+    }
+    bool reported = false;
+    void restore(const Op &op) {  // same sizes: copy the pristine argument data back in place
+        if (!op.cells.empty()) memcpy(cells.data(), op.cells.data(), op.cells.size() * 8);
+        for (size_t i = 0; i < op.loops.size(); i++)
+            if (!op.loops[i].empty())
+                memcpy(loops[i].data(), op.loops[i].data(), op.loops[i].size() * sizeof(LatLng));
+        reported = false;
     }
     bool intact(const Op &op) const {
         if (!op.cells.empty() &&
@@ -133,9 +154,11 @@ struct OpSlot {
 };
 
 struct C18Outcome {
-    std::vector<JP> violations;
+    std::vector<JP> violations;  // each carries the complete case (programs + forced schedule)
     std::vector<std::string> observations;
-    SchedStats st;
+    SchedStats st;               // of the last concurrent execution
+    int64_t steps = 0, switches = 0, guardEvents = 0, allocEvents = 0, concurrentExecs = 0;
+    std::set<uint64_t> signatures, pairs;
     Chain chain;
     int64_t opsRun = 0, opsDropped = 0, soloSteps = 0;
     int64_t fired[F_KINDS] = {0};
@@ -163,13 +186,31 @@ JP mkViolation(const std::string &cls, const Op &op, int t, int i,
 
 uint64_t g_opIdCounter = 1ULL << 40;
 
-void execC18(const C18Case &cs, C18Outcome &out) {
-    int T = (int)cs.progs.size();
-    std::vector<std::vector<OpSlot>> slots((size_t)T);
+// One case = programs + knobs.  prepare() runs the attribution pre-run and the
+// sequential reference once; concurrent() executes the same calls under one
+// schedule and judges them, and may be called several times (preemption sweep).
+struct C18Exec {
+    const C18Case &cs;
+    int T;
+    std::vector<std::vector<OpSlot>> slots;
+    std::map<int, std::vector<std::unique_ptr<SharedBuf>>> shared;
+    int64_t soloStepsTotal = 0;
+    explicit C18Exec(const C18Case &c) : cs(c), T((int)c.progs.size()) {}
+    void prepare(C18Outcome &out);
+    void concurrent(const SchedConfig &scIn, C18Outcome &out);
+    JP caseWith(const std::vector<SwitchRec> &schedule) const {
+        C18Case rec = cs;
+        rec.sched.forced = true;
+        rec.sched.schedule = schedule;
+        return rec.toJson();
+    }
+};
+
+void C18Exec::prepare(C18Outcome &out) {
+    slots.assign((size_t)T, std::vector<OpSlot>());
     for (int t = 0; t < T; t++) slots[t].resize(cs.progs[t].size());
 
     // shared caller-owned inputs
-    std::map<int, std::vector<std::unique_ptr<SharedBuf>>> shared;
     for (int t = 0; t < T; t++)
         for (size_t i = 0; i < cs.progs[t].size(); i++) {
             const Op &op = cs.progs[t][i];
@@ -177,7 +218,7 @@ void execC18(const C18Case &cs, C18Outcome &out) {
             auto &lst = shared[op.share];
             SharedBuf *found = nullptr;
             for (auto &b : lst)
-                if (b->hash == op.hash()) found = b.get();
+                if (b->hash == dataHash(op)) found = b.get();
             if (!found) {
                 lst.emplace_back(new SharedBuf());
                 lst.back()->build(op);
@@ -220,13 +261,18 @@ void execC18(const C18Case &cs, C18Outcome &out) {
                 heapAudit(&ctx, true);
             s.failedSolo = ctx.failed;
             out.soloSteps += s.soloSteps;
-            for (auto &tr : trapTake())
-                out.violations.push_back(mkViolation(
+            for (auto &tr : trapTake()) {
+                JP v = mkViolation(
                     "I1-static-write", op, t, (int)i,
                     "store to library-owned static storage '" + trapSymbol(tr.addr) +
                         "' while executing " + op.brief() +
                         " alone (sequential phase); two threads making this call would race",
-                    trapSymbol(tr.addr)));
+                    trapSymbol(tr.addr));
+                if (out.violations.size() < 8) {
+                    v->set("case", caseWith({{0, 0}}));
+                    out.violations.push_back(v);
+                }
+            }
             trapRearm();
             if (s.expected.status != CALL_RETURNED) {
                 s.dropped = true;
@@ -253,7 +299,31 @@ void execC18(const C18Case &cs, C18Outcome &out) {
                                                cs.progs[t][i].brief());
             }
 
+    soloStepsTotal = out.soloSteps;
+}
+
+void C18Exec::concurrent(const SchedConfig &scIn, C18Outcome &out) {
+    size_t firstViolation = out.violations.size();
     // ---- phase B: the same calls, concurrently, under the scheduler --------
+    // pristine statics again: the concurrent phase models "the first calls of a
+    // process are concurrent" (a lazily initialised table is caught here too)
+    trapTake();
+    trapDisarm();
+    staticsRestore();
+    trapArm();
+    for (auto &ts : slots)
+        for (auto &s : ts) {
+            s.got = Result();
+            s.heapV.clear();
+            s.failedConc = 0;
+        }
+    for (int t = 0; t < T; t++)
+        for (size_t i = 0; i < cs.progs[t].size(); i++) {
+            const Op &op = cs.progs[t][i];
+            if (!op.share) continue;
+            for (auto &b : shared[op.share])
+                if (b->hash == dataHash(op)) b->restore(op);
+        }
     heapReset(cs.knobs);
     std::vector<OpHeapCtx> ctxs((size_t)T);
     // (task, op index, global step at op begin): lets a trap taken in the
@@ -293,9 +363,16 @@ void execC18(const C18Case &cs, C18Outcome &out) {
         }
         schedOpBoundary();
     };
-    SchedConfig sc = cs.sched;
-    sc.pctHorizon = std::max<int64_t>(1000, out.soloSteps);
+    SchedConfig sc = scIn;
+    sc.pctHorizon = std::max<int64_t>(1000, soloStepsTotal);
     out.st = schedRun(T, sc, body);
+    out.concurrentExecs++;
+    out.steps += out.st.steps;
+    out.switches += out.st.switches;
+    out.guardEvents += out.st.guardEvents;
+    out.allocEvents += out.st.allocEvents;
+    out.signatures.insert(out.st.signature);
+    out.pairs.insert(out.st.switchPairs.begin(), out.st.switchPairs.end());
     std::vector<TrapRec> traps = trapTake();
     trapDisarm();
 
@@ -372,11 +449,11 @@ void execC18(const C18Case &cs, C18Outcome &out) {
             const Op &op = cs.progs[t][i];
             if (!op.share) continue;
             for (auto &b : shared[op.share])
-                if (b->hash == op.hash() && !b->intact(op)) {
+                if (b->hash == dataHash(op) && !b->reported && !b->intact(op)) {
                     out.violations.push_back(mkViolation(
                         "I2-shared-input-modified", op, t, (int)i,
                         "a const input array shared by several tasks was modified", ""));
-                    b->hash = 0;
+                    b->reported = true;
                 }
         }
     for (int t = 0; t < T; t++)
@@ -389,6 +466,20 @@ void execC18(const C18Case &cs, C18Outcome &out) {
     out.chain.add(out.st.signature);
     out.chain.add((uint64_t)out.st.steps);
     out.chain.add((uint64_t)out.st.switches);
+    // every violation of this execution carries the complete case with the
+    // schedule that was actually taken, as an explicit (step, next task) list
+    if (out.violations.size() > firstViolation) {
+        if (out.violations.size() > firstViolation + 6) out.violations.resize(firstViolation + 6);
+        JP cj = caseWith(out.st.recorded);
+        for (size_t i = firstViolation; i < out.violations.size(); i++)
+            out.violations[i]->set("case", cj);
+    }
+}
+
+void execC18(const C18Case &cs, C18Outcome &out) {
+    C18Exec e(cs);
+    e.prepare(out);
+    e.concurrent(cs.sched, out);
 }
 
 bool hasInputArrays(int fn) {
@@ -490,25 +581,115 @@ C18Case genCase(uint64_t runSeed, const TierCfg &cfg) {
 
 }  // namespace
 
+// Preemption sweep (a third of the runs): two or three tasks with very short
+// programs on shared inputs; the first task is preempted exactly once, at each
+// of K positions spread over its own execution, the other task(s) run to
+// completion in the gap, then the first task resumes.  This covers, position
+// by position, the windows in which a call has temporarily changed something
+// another call can see (a caller's "const" input, libc state).
+C18Case genSweepCase(uint64_t runSeed, const TierCfg &cfg) {
+    Rng rng(runSeed ^ 0x5eeb5eebULL);
+    Gen gen(rng);
+    C18Case cs;
+    cs.caseSeed = rng.u64();
+    cs.knobs = HeapKnobs::draw(rng);
+    cs.knobs.capacity = 0;
+    cs.sched.policy = POL_UNIFORM;
+    cs.sched.quantumMean = 200;
+    cs.sched.maxSwitches = 0;
+    cs.sched.seed = rng.u64();
+    cs.sched.forced = true;
+    int T = rng.chance(0.75) ? 2 : 3;
+    int scale = (int)rng.range(0, std::min(1, cfg.scaleMax));
+    Op base;
+    bool shareInput = rng.chance(0.6);
+    for (int tries = 0; tries < 30; tries++) {
+        base = gen.anyOp(scale);
+        if (!shareInput || hasInputArrays(base.fn)) break;
+    }
+    if (shareInput && hasInputArrays(base.fn)) base.share = 1;
+    for (int t = 0; t < T; t++) {
+        std::vector<Op> prog;
+        double u = rng.unit();
+        if (t == 0 || u < 0.45) {
+            prog.push_back(base);  // same arguments (and, if shared, the same buffers)
+        } else if (u < 0.8) {
+            Op o = gen.anyOp(scale, base.fn);  // same function, other arguments
+            prog.push_back(o);
+        } else {
+            prog.push_back(gen.anyOp(scale));
+        }
+        if (base.share && t > 0 && rng.chance(0.5)) {
+            // another function reading the same shared polygon / cell set
+            static const int polyFns[] = {FN_polygonToCells, FN_polygonToCellsExperimental,
+                                          FN_maxPolygonToCellsSize, FN_maxPolygonToCellsSizeExperimental};
+            static const int setFns[] = {FN_compactCells, FN_cellsToLinkedMultiPolygon, FN_uncompactCellsSize};
+            Op o = base;
+            if (!base.loops.empty()) {
+                o.fn = polyFns[rng.below(4)];
+                o.ints.resize(2);
+                if (o.fn == FN_polygonToCellsExperimental) o.ints.push_back(4096);
+            } else if (base.fn == FN_compactCells || base.fn == FN_cellsToLinkedMultiPolygon) {
+                o.fn = setFns[rng.below(3)];
+                o.ints = {(int64_t)((base.cells.empty() ? 0 : (base.cells[0] >> 52) & 0xF))};
+            }
+            prog.push_back(o);
+        }
+        cs.progs.push_back(prog);
+    }
+    return cs;
+}
+
 JP runC18(uint64_t runSeed, int64_t runIdx, const TierCfg &cfg) {
-    C18Case cs = genCase(runSeed, cfg);
+    bool sweep = (mix2(runSeed, 0x51ee9) % 3) == 0;
+    C18Case cs = sweep ? genSweepCase(runSeed, cfg) : genCase(runSeed, cfg);
     C18Outcome out;
     guardCoverageReset();
-    execC18(cs, out);
+    if (!sweep) {
+        execC18(cs, out);
+    } else {
+        C18Exec e(cs);
+        e.prepare(out);
+        int64_t s0 = 0;
+        for (auto &s : e.slots[0])
+            if (!s.dropped) s0 += s.soloSteps + 1;
+        Rng rng(runSeed ^ 0x77aa);
+        int K = cfg.tier == "thorough" ? 40 : 16;
+        std::set<int64_t> pos;
+        for (int k = 0; k < K && s0 > 1; k++) {
+            int64_t lo = 1 + (s0 - 1) * k / K, hi = 1 + (s0 - 1) * (k + 1) / K;
+            pos.insert(rng.range(lo, std::max(lo, hi - 1)));
+        }
+        for (int k = 0; k < 4 && s0 > 1; k++) pos.insert(rng.range(1, std::min<int64_t>(s0, 40)));  // right after entry
+        for (int k = 0; k < 6 && s0 > 1; k++) pos.insert(std::max<int64_t>(1, s0 - (int64_t)rng.below(120)));  // right before exit
+        if (pos.empty()) pos.insert(1);
+        int T = (int)cs.progs.size();
+        for (int64_t p : pos) {
+            SchedConfig sc = cs.sched;
+            sc.forced = true;
+            sc.schedule = {{0, 0}, {p, 1}};
+            // with three tasks the second one is itself preempted once by the third
+            if (T > 2) sc.schedule.push_back({p + 1 + (int64_t)rng.below(200), 2});
+            e.concurrent(sc, out);
+            if (!out.violations.empty()) break;
+        }
+    }
     JP line = JVal::obj();
     line->set("run", runIdx);
     line->set("seed", hex64(runSeed));
     line->set("fn", "program");
+    line->set("mode", sweep ? "preemption-sweep" : "random-schedule");
     line->set("threads", (int64_t)cs.progs.size());
-    line->set("policy", POLICY_NAMES[cs.sched.policy]);
-    line->set("quantum", cs.sched.quantumMean);
+    line->set("policy", sweep ? "single-preemption-sweep" : POLICY_NAMES[cs.sched.policy]);
+    line->set("quantum", sweep ? 0 : cs.sched.quantumMean);
     line->set("ops", out.opsRun);
     line->set("ops_dropped", out.opsDropped);
     line->set("execs", out.opsRun);
-    line->set("steps", out.st.steps);
-    line->set("guard_events", out.st.guardEvents);
-    line->set("alloc_events", out.st.allocEvents);
-    line->set("switches", out.st.switches);
+    line->set("concurrent_executions", out.concurrentExecs);
+    line->set("steps", out.steps);
+    line->set("guard_events", out.guardEvents);
+    line->set("alloc_events", out.allocEvents);
+    line->set("switches", out.switches);
     line->set("solo_steps", out.soloSteps);
     line->set("signature", hex64(out.st.signature));
     line->set("shared_groups", out.sharedGroups);
@@ -520,17 +701,16 @@ JP runC18(uint64_t runSeed, int64_t runIdx, const TierCfg &cfg) {
     JP fc = JVal::obj();
     for (auto &kv : out.fnCalls) fc->set(kv.first, kv.second);
     line->set("fn_calls", fc);
-    std::set<uint64_t> pairs(out.st.switchPairs.begin(), out.st.switchPairs.end());
-    line->set("distinct_switch_pairs", (int64_t)pairs.size());
+    line->set("distinct_switch_pairs", (int64_t)out.pairs.size());
     JP pb = JVal::arr();
-    for (auto p : pairs) {
+    for (auto p : out.pairs) {
         uint64_t h = mix2(p, 0x9a1f) & ((1u << 20) - 1);
         pb->push(JVal::integer((int64_t)h));
     }
     line->set("pair_bits", pb);
     line->set("cov", bitmapHex(guardCoveredIds(), guardCount()));
     JP sc = JVal::arr();
-    sc->push(JVal::str(hex64(out.st.signature)));
+    for (auto sg : out.signatures) sc->push(JVal::str(hex64(sg)));
     line->set("scenarios", sc);
     if (!out.observations.empty()) {
         line->set("observation", out.observations[0]);
@@ -540,16 +720,12 @@ JP runC18(uint64_t runSeed, int64_t runIdx, const TierCfg &cfg) {
     }
     line->set("hash", hex64(out.chain.h));
     JP vs = JVal::arr();
-    if (!out.violations.empty()) {
-        C18Case rec = cs;
-        rec.sched.forced = true;
-        rec.sched.schedule = out.st.recorded;
-        // one record per class, each carrying the complete case
+    {
+        // one record per class; each already carries its complete case
         std::set<std::string> seen;
         for (auto &v : out.violations) {
             std::string key = v->gets("class") + "|" + v->gets("fn") + "|" + v->gets("site");
-            if (!seen.insert(key).second) continue;
-            v->set("case", rec.toJson());
+            if (!seen.insert(key).second || !v->get("case")) continue;
             vs->push(v);
             if (vs->a.size() >= 3) break;
         }
